@@ -118,10 +118,10 @@ def _configs3(tier):
     out = []
     q = tier == 'quick'
     combos = [('0', '3ms', '260ms'), ('0', '249.5ms', '600ms')] if q else \
-        list(itertools.product(['0'], ['0', '3ms', '249.5ms', '260ms'], ['0', '3ms', '249.5ms', '260ms', '600ms']))
+        [('0', '3ms', '260ms'), ('0', '249.5ms', '600ms'), ('0', '0', '3ms'), ('0', '249.5ms', '249.5ms'), ('0', '260ms', '260ms'), ('0', '0', '0')]
     for starts in combos:
         for aacs in ([(True, True, True), (False, True, True), (False, False, True)] if q else list(itertools.product([False, True], repeat=3))):
-            for addrs in ([(128, 128, 128), (128, 128, 129)] if q else [(128, 128, 128), (128, 128, 129), (200, 201, 200), (10, 10, 10), (10, 11, 10)]):
+            for addrs in ([(128, 128, 128), (128, 128, 129)] if q else [(128, 128, 128), (128, 128, 129), (200, 201, 200), (10, 11, 10)]):
                 out.append([[aacs[i], addrs[i], starts[i], '0'] for i in range(3)])
     return out
 
@@ -135,7 +135,11 @@ def jobs(tier):
         if cfg[1][3] == '0' and cfg[1][2] in ('0', '3ms', '249.5ms', '260ms'):
             out.append(Job('C04', 'c04:h_claim', {'cfg': cfg, 'reent': True}, W=96, wall=300, max_paths=5000, validate=1))
     for cfg in _configs3(tier):
-        out.append(Job('C04', 'c04:h_claim', {'cfg': cfg, 'lat_mode': 'per_frame'}, W=96, wall=300 if tier == 'quick' else 3000, max_paths=100000, validate=1))
+        simultaneous = len(set(c[2] for c in cfg)) < 3
+        # simultaneously starting CAs on one address: the path count explodes with the number of cascades; explored
+        # under a budget and reported as non-exhaustive when the budget is hit
+        out.append(Job('C04', 'c04:h_claim', {'cfg': cfg, 'lat_mode': 'per_frame'}, W=96, wall=300 if tier == "quick" else (300 if simultaneous else 1200),
+                       max_paths=100000, validate=1, partial_ok=(tier != 'quick' and simultaneous)))
     return out
 
 
